@@ -530,6 +530,11 @@ B("PUBLISH.encode qos << 2", ["C01", "C02"], [(PDU, "            header[0] = 0x3
 B("CONNECT.decode will topic/message swapped", ["C01"],
   [(PDU, "            self.willTopic,  packet_remaining  = decodeString(packet_remaining)\n            self.willMessage, packet_remaining = decodeString(packet_remaining)",
     "            self.willMessage,  packet_remaining  = decodeString(packet_remaining)\n            self.willTopic, packet_remaining = decodeString(packet_remaining)")], {"C01": ["L3"]})
+B("CONNECT.decode: will-retain read by an unmasked shift, compared with 1", ["C01"], [(PDU, "        willRetain = (flags & 0x20) != 0", "        willRetain = (flags >> 5) == 0x01")], {"C01": ["L4"]})
+B("CONNECT.decode: will-retain mask includes the password bit", ["C01"], [(PDU, "        willRetain = (flags & 0x20) != 0", "        willRetain = (flags & 0x60) != 0")], {"C01": ["L4"]})
+B("CONNECT.decode: will QoS mask three bits wide", ["C01"], [(PDU, "        willQoS    = (flags >> 3) & 0x03", "        willQoS    = (flags >> 3) & 0x07")], {"C01": ["L4"]})
+N("CONNECT.decode: will-retain read by shift and one-bit mask", ["C01", "C02", "C18"], [(PDU, "        willRetain = (flags & 0x20) != 0", "        willRetain = ((flags >> 5) & 0x01) == 0x01")])
+N("CONNECT.decode: will-retain compared with its own mask", ["C01", "C02", "C18"], [(PDU, "        willRetain = (flags & 0x20) != 0", "        willRetain = (flags & 0x20) == 0x20")])
 B("CONNECT.decode without willRetain", ["C01"], [(PDU, "            self.willRetain = willRetain\n", "")], {"C01": ["L2"]})
 B("CONNECT.encode user/password flag masks swapped", ["C01", "C02"],
   [(PDU, "        if self.username is not None:\n            flags |= 0x80\n        if self.password is not None:\n            flags |= 0x40", "        if self.username is not None:\n            flags |= 0x40\n        if self.password is not None:\n            flags |= 0x80")],
@@ -793,3 +798,39 @@ N("doUnsubscribe without the wasted first makeId()", ALL,
 N("handlePUBREL with try/else restored around the delivery", ALL,
   [(PS, "        reply = PUBCOMP()\n        reply.msgId = response.msgId\n        log.debug(\"<== {packet:7} (id={response.msgId:04x})\" , packet=\"PUBCOMP\", response=response)\n        self.transport.write(reply.encode())\n",
     "        self._sendPubcomp(response.msgId)\n\n    def _sendPubcomp(self, msgId):\n        reply = PUBCOMP()\n        reply.msgId = msgId\n        self.transport.write(reply.encode())\n")])
+
+_PUBLOOP = """        for _, request in self.factory.windowPublish[self.addr].items():
+            if request.alarm is not None:
+                request.alarm.cancel()
+                request.alarm = None
+        for _, request in self.factory.windowPubRelease[self.addr].items():
+            if request.alarm is not None:
+                request.alarm.cancel()
+                request.alarm = None
+        # Then, invoke errbacks anyway if we do not persist state
+"""
+B("loss: publish alarms cancelled inside one try, AttributeError swallowed around both loops", ["C13"], [(PS, _PUBLOOP, """        try:
+            for _, request in self.factory.windowPublish[self.addr].items():
+                request.alarm.cancel()
+                request.alarm = None
+            for _, request in self.factory.windowPubRelease[self.addr].items():
+                request.alarm.cancel()
+                request.alarm = None
+        except AttributeError:
+            pass
+        # Then, invoke errbacks anyway if we do not persist state
+""")], {"C13": ["R-LOSS"]})
+N("loss: publish alarms cancelled with a try per entry instead of the None test", ["C04", "C08", "C11", "C12", "C13", "C14", "C16"], [(PS, _PUBLOOP, """        for _, request in self.factory.windowPublish[self.addr].items():
+            try:
+                request.alarm.cancel()
+            except AttributeError:
+                pass
+            request.alarm = None
+        for _, request in self.factory.windowPubRelease[self.addr].items():
+            try:
+                request.alarm.cancel()
+            except AttributeError:
+                pass
+            request.alarm = None
+        # Then, invoke errbacks anyway if we do not persist state
+""")])
